@@ -113,6 +113,11 @@ def _mk():
         lambda x0, c: [np.clip(x0, c['lo'], c['hi']),
                        np.logical_and(x0 <= c['hi'], x0 >= c['lo']).astype(float)], dom='clip',
         prm=lambda rng: {'lo': -0.5, 'hi': 0.75})
+    # one-sided clipping (numpy.clip(x, None, hi) / numpy.clip(x, lo, None)): the missing bound is infinite
+    add('clip_hi_only', lambda x, c: algopy.special.botched_clip(None, c['hi'], x), 'clip',
+        lambda x0, c: [np.clip(x0, None, c['hi']), (x0 <= c['hi']).astype(float)], dom='clip', prm=lambda rng: {'lo': -0.5, 'hi': 0.75})
+    add('clip_lo_only', lambda x, c: algopy.special.botched_clip(c['lo'], None, x), 'clip',
+        lambda x0, c: [np.clip(x0, c['lo'], None), (x0 >= c['lo']).astype(float)], dom='clip', prm=lambda rng: {'lo': -0.5, 'hi': 0.75})
     return T
 
 
